@@ -407,6 +407,8 @@ SEED_BOOKS = {
     "mo_both_eq": [("R",), Mo(B, 1), Mo(S, 1), L(B, 100, 1), L(S, 101, 1), ("R",)],
     # orders about to expire on both sides, one of them partially filled
     "expiring": [L(B, 99, 2, 1), L(S, 101, 1, 1), L(B, 100, 2, 2), L(S, 100, 1, None), ("X",), Mo(S, 1, 1)],
+    # two resting orders per side sharing one expiry time (one expiry bucket), one partially filled
+    "same_expiry": [L(B, 99, 1, 2), L(B, 98, 2, 2), L(S, 101, 1, 2), L(S, 102, 2, 2), ("T",), L(B, 97, 1, 1), L(S, 103, 1, 1)],
     # four fills in one round (book crossed during a not-running phase)
     "multi_fill": [("R",), L(B, 101, 1), L(B, 101, 1), L(B, 100, 2), L(S, 99, 1), L(S, 99, 2), L(S, 100, 1), ("R",)],
 }
